@@ -294,6 +294,7 @@ func (h *MultiHandler) finalize() {
 		if err != nil {
 			panic(fmt.Errorf("failed to marshal round message: %w", err))
 		}
+		data = simCanon(data)
 		msg := &Message{
 			SSID:                  r.SSID(),
 			From:                  r.SelfID(),
